@@ -271,3 +271,142 @@ def check_builtin_names(model, col, rule):
                   f"the source name `{key}` is bound to `{unparse(v)}`: a variable declared `{key}` has another component type or shape than its name says, so every rule about "
                   "operand shapes and conversions is applied to the wrong type", TYPES, v)
     col.floor(rule, "builtin type names", n, 17)
+    check_self_typed(model, col, rule)
+    check_literal_types(model, col, rule)
+    check_shape_preserving_copies(model, col, rule)
+
+
+def check_self_typed(model, col, rule):
+    """Expression classes whose constructor receives the node's type (casts, constructor calls, literals) keep it: no path of
+    the type pass's expression walk that such a node can take (isinstance tests folded over the class hierarchy, every other
+    test open) assigns it another type."""
+    ASTF_ = "nsl/ast/__init__.py"
+    CT_ = "nsl/passes/ComputeTypes.py"
+    from ..sem import expand_helpers
+
+    ctv = model.cls(CT_, "ComputeTypeVisitor")
+    pe0 = ctv.own_method("_ProcessExpression")
+    pe = expand_helpers(model, ctv, pe0)
+    ep = pe.args.args[1].arg
+    base = model.cls(ASTF_, "Expression")
+    n = 0
+    for ci in model.subclasses(base, strict=True):
+        init = ci.methods.get("__init__")
+        if init is None or ci.file != ASTF_:
+            continue
+        ps = {a.arg for a in init.args.args[1:]}
+        selfn = init.args.args[0].arg
+        if not any(isinstance(c, ast.Call) and last_attr(c) == "SetType" and isinstance(c.func, ast.Attribute) and unparse(c.func.value) == selfn and c.args and isinstance(c.args[0], ast.Name) and c.args[0].id in ps
+                   for c in ast.walk(init)):
+            continue
+        n += 1
+        names = {c.name for c in ci.mro}
+
+        def fold(t, names=names):
+            if isinstance(t, ast.Call) and isinstance(t.func, ast.Name) and t.func.id == "isinstance" and len(t.args) == 2 and unparse(t.args[0]) == ep:
+                alts = []
+                stack = [t.args[1]]
+                while stack:
+                    e = stack.pop()
+                    if isinstance(e, ast.BinOp) and isinstance(e.op, ast.BitOr):
+                        stack += [e.left, e.right]
+                    elif isinstance(e, ast.Tuple):
+                        stack += list(e.elts)
+                    else:
+                        alts.append(unparse(e).split(".")[-1])
+                return any(a in names for a in alts)
+            if isinstance(t, ast.BoolOp):
+                vals = [fold(v) for v in t.values]
+                if isinstance(t.op, ast.And):
+                    return False if any(v is False for v in vals) else (True if all(v is True for v in vals) else None)
+                return True if any(v is True for v in vals) else (False if all(v is False for v in vals) else None)
+            if isinstance(t, ast.UnaryOp) and isinstance(t.op, ast.Not):
+                v = fold(t.operand)
+                return None if v is None else not v
+            return None
+
+        retyped = None
+        for evs, status in paths(pe.body, fold=fold):
+            for c in calls_on_path(evs):
+                if last_attr(c) == "SetType" and isinstance(c.func, ast.Attribute) and unparse(c.func.value) == ep:
+                    retyped = retyped or c
+        col.check(retyped is None, rule, f"{CT_}::_ProcessExpression leaves the type of {ci.name} alone", f"a {ci.name} keeps the type its constructor was given",
+                  f"a {ci.name} can reach `{' '.join(unparse(retyped).split())[:60] if retyped is not None else ''}`: the type written in the source (the constructor's / cast's target, the literal's type) "
+                  "is replaced, so operators and overloads are resolved against another type than the expression has", CT_, retyped if retyped is not None else pe0)
+    col.floor(rule, "expression classes typed by their constructor", n, 3)
+
+
+def check_literal_types(model, col, rule):
+    """A literal's type is decided by how it is converted from the token text: int(..) -> Integer, float(..) -> Float."""
+    from ..grammar import PARSER as _PARSER
+
+    want = {"int": "Integer", "float": "Float"}
+    n = 0
+    for c in ast.walk(model.file(_PARSER).tree):
+        conv = (last_attr(c.args[0]) or "").lower() if isinstance(c, ast.Call) and last_attr(c) == "LiteralExpression" and len(c.args) == 2 and isinstance(c.args[0], ast.Call) else ""
+        conv = "float" if "float" in conv else conv
+        if conv in want:
+            n += 1
+            t = c.args[1]
+            tn = last_attr(t) if isinstance(t, ast.Call) else None
+            col.check(tn == want[conv] and not t.args, rule, f"{_PARSER}:: literal built with {conv}(..) at `{' '.join(unparse(c.args[0]).split())[:30]}`",
+                      f"typed {want[conv]}", f"`{' '.join(unparse(c).split())[:80]}`: the literal is typed `{unparse(t)}`: the spelling of a constant (hex, octal, exponent) changes the "
+                      "type of every expression it takes part in and the overload a call with it selects", _PARSER, c)
+    col.floor(rule, "literal constructions in the parser", n, 4)
+
+
+def check_shape_preserving_copies(model, col, rule):
+    """`WithComponentType` returns the same shape with another component type: every shape argument of the copy is the field
+    the constructor stored that same parameter in."""
+    n = 0
+    for ci in model.classes.values():
+        if ci.file != TYPES or "WithComponentType" not in ci.methods or "__init__" not in ci.methods:
+            continue
+        init, w = ci.methods["__init__"], ci.methods["WithComponentType"]
+        params = [a.arg for a in init.args.args[1:]]
+        selfn = init.args.args[0].arg
+        # field expression -> constructor parameter
+        fmap = {}
+        for x in ast.walk(init):
+            if isinstance(x, ast.Assign) and isinstance(x.targets[0], ast.Attribute) and isinstance(x.targets[0].value, ast.Name) and x.targets[0].value.id == selfn:
+                fld = x.targets[0].attr
+                if isinstance(x.value, ast.Name) and x.value.id in params:
+                    fmap[f"self.{fld}"] = x.value.id
+                elif isinstance(x.value, ast.Tuple):
+                    for i, e in enumerate(x.value.elts):
+                        if isinstance(e, ast.Name) and e.id in params:
+                            fmap[f"self.{fld}[{i}]"] = e.id
+
+        def origin(e, depth=0):
+            t = unparse(e).replace(w.args.args[0].arg + ".", "self.", 1) if unparse(e).startswith(w.args.args[0].arg + ".") else unparse(e)
+            if t in fmap:
+                return fmap[t]
+            if isinstance(e, ast.Call) and isinstance(e.func, ast.Attribute) and not e.args and depth < 3:
+                g = ci.find_method(e.func.attr)
+                if g is not None:
+                    rets = [r.value for r in ast.walk(g[1]) if isinstance(r, ast.Return) and r.value is not None]
+                    if len(rets) == 1:
+                        return origin(rets[0], depth + 1)
+            if isinstance(e, ast.Subscript) and isinstance(e.slice, ast.Constant) and depth < 3:
+                inner = e.value
+                if isinstance(inner, ast.Call) and isinstance(inner.func, ast.Attribute) and not inner.args:
+                    g = ci.find_method(inner.func.attr)
+                    rets = [r.value for r in ast.walk(g[1]) if isinstance(r, ast.Return) and r.value is not None] if g is not None else []
+                    if len(rets) == 1:
+                        return origin(ast.Subscript(value=rets[0], slice=e.slice, ctx=ast.Load()), depth + 1)
+            return None
+
+        for r in [x.value for x in ast.walk(w) if isinstance(x, ast.Return) and isinstance(x.value, ast.Call)]:
+            rc = model.resolve_class_expr(TYPES, r.func)
+            if rc is not ci:
+                continue
+            n += 1
+            wrong = []
+            for p, a in list(zip(params, r.args))[1:] + [(k.arg, k.value) for k in r.keywords if k.arg in params[1:]]:
+                o = origin(a)
+                if o is not None and o != p:
+                    wrong.append(f"{p} <- {' '.join(unparse(a).split())} (which holds `{o}`)")
+            col.check(not wrong, rule, f"{TYPES}::{ci.name}.WithComponentType keeps the shape", "each shape argument of the copy is the field of the same constructor parameter",
+                      f"{wrong}: converting the component type of a {ci.name} (implicit promotion of an operand) also changes its shape, so results of mixed-type operations get another "
+                      "shape than the defined one", TYPES, r)
+    col.floor(rule, "shape-preserving copies", n, 2)
